@@ -780,7 +780,27 @@ pub fn serialize_ops(mut ops: &[Op]) -> Result<Vec<u8>> {
                 }
                 writeln!(f, "] TJ")?;
             },
-            Op::InlineImage { image: _ } => unimplemented!(),
+            Op::InlineImage { ref image } => {
+                // the dictionary of an inline image holds direct objects only
+                let stream = image.inner.to_pdf_stream(&mut NoUpdate)?;
+                let data = match stream.inner {
+                    StreamInner::Pending { ref data } => data.clone(),
+                    StreamInner::InFile { .. } => bail!("the data of an inline image has to be in memory")
+                };
+                writeln!(f, "BI")?;
+                for (key, val) in stream.info.iter() {
+                    if matches!(key.as_str(), "Length" | "Type" | "Subtype") {
+                        continue;
+                    }
+                    serialize_name(key, f)?;
+                    write!(f, " ")?;
+                    val.serialize(f)?;
+                    writeln!(f)?;
+                }
+                write!(f, "ID ")?;
+                f.write_all(&data)?;
+                writeln!(f, "\nEI")?;
+            },
             Op::XObject { ref name } => {
                 serialize_name(name, f)?;
                 writeln!(f, " Do")?;
